@@ -1006,8 +1006,18 @@ def rule_grammar_guards(col, facts):
     #     that records it (and that switches the leading-zeros check off) may only be set once the prefix
     #     character itself was consumed; set after the lone `0`, the zero is lost: `0` -> EmptyMantissa and
     #     `01` passes no_float_leading_zeros.
-    pl = [l for l, nm in pn.names.items() if nm == "is_prefix"]
-    col.check(R, "parse_number:is_prefix:local", len(pl) == 1, "no unique `is_prefix` local in parse_number", pn.loc())
+    # the flag = the bool local (all of whose definitions are literals) that is tested on the way to the
+    # leading-zeros error, whatever it is called
+    pl = set()
+    for bb, sp in sites:
+        for _d, e, p in path_conditions(pn, bb):
+            e = strip_casts(e)
+            if e[0] == "var" and isinstance(p, bool):
+                ds = pn.defs().get(e[1], [])
+                if len(ds) >= 2 and all((not pr) and rv[0] == "use" and rv[1][0] == "k" and rv[1][1].get("ty") == "bool" for _b, _j, rv, pr in ds):
+                    pl.add(e[1])
+    pl = sorted(pl)
+    col.check(R, "parse_number:is_prefix:local", len(pl) == 1, "the prefix flag tested before the leading-zeros error was not found (%d candidates)" % len(pl), pn.loc())
     if len(pl) == 1:
         k = 0
         for i, b in enumerate(pn.blocks):
@@ -1033,8 +1043,18 @@ def rule_grammar_guards(col, facts):
     #     `1h` and (without a prefix in the format) `0h` are accepted.
     for fname in ("lexical_parse_integer::algorithm::algorithm_complete", "lexical_parse_integer::algorithm::algorithm_partial"):
         f = facts.fn(fname)
-        sl = [l for l, nm in f.names.items() if nm == "start_index"]
-        col.check(R, "%s:start_index:local" % last_seg(fname), len(sl) == 1, "no unique `start_index` local", f.loc())
+        # the start of the digits = the local subtracted from the cursor in the "at least one digit before the
+        # suffix" test `cursor() - X > 1`, whatever it is called
+        sl = set()
+        for i, b in enumerate(f.blocks):
+            if f.live(i) and b["t"]["k"] == "switch":
+                e = strip_casts(op_expr(f, b["t"]["d"]))
+                if e[0] == "bin" and e[1] in ("Gt", "Ge") and strip_casts(e[3])[0] == "k":
+                    l = strip_casts(simplify_proj(e[2]))
+                    if l[0] == "bin" and l[1] == "Sub" and strip_casts(l[2])[0] == "call" and last_seg(strip_casts(l[2])[1]) == "cursor" and strip_casts(l[3])[0] == "var":
+                        sl.add(strip_casts(l[3])[1])
+        sl = sorted(sl)
+        col.check(R, "%s:start_index:local" % last_seg(fname), len(sl) == 1, "the start-of-digits local of the suffix test was not found (%d candidates)" % len(sl), f.loc())
         if len(sl) != 1:
             continue
         moves = badm = 0
@@ -2266,8 +2286,11 @@ def rule_suffix_step(col, facts):
             ok = False
             for _d, e, p in conds:
                 e = strip_casts(e)
-                if p is True and e[0] == "var" and len(e) > 2 and e[2] == "is_suffix":
-                    ok = True
+                if p is True and e[0] == "var":
+                    # a local all of whose definitions compare the byte with the base suffix (`is_suffix`)
+                    ds = f.defs().get(e[1], [])
+                    if ds and all(any(last_seg(x[1]) == "BASE_SUFFIX" for x in expr_consts(rvalue_expr(f, rv, 1, e[1]))) or any(last_seg(x[1]) == "base_suffix" for x in expr_calls(rvalue_expr(f, rv, 1, e[1]))) for _b, _j, rv, pr in ds if not pr):
+                        ok = True
                 if p is True and e[0] in ("bin", "call") and (any(last_seg(x[1]) == "BASE_SUFFIX" for x in expr_consts(e)) or any(last_seg(x[1]) == "base_suffix" for x in expr_calls(e))) and \
                         ((e[0] == "bin" and e[1] == "Eq") or (e[0] == "call" and last_seg(e[1]) in ("eq_ignore_ascii_case", "eq"))):
                     ok = True
